@@ -280,6 +280,7 @@ def run(ctx):
     _constant_keys(ctx, repo, m, ci)
     _sweeps(ctx, repo)
     _args(ctx, repo)
+    _reader_defaults(ctx, repo)
 
 
 # ---------------------------------------------------------------------------
@@ -838,3 +839,39 @@ def _args(ctx, repo):
     for o in sorted(wo | ro):
         ok = o in ro if o in wo else True
         ctx.ob('C16.c.args', f'arg-op:{o}', ok, '' if ok else f'operator `{o}` is written but the reader has no case for it', m.rel, w.lineno)
+
+
+def _reader_defaults(ctx, repo):
+    """C16.f - readers do not turn a written value into a different one through a truthiness shortcut."""
+    ctx.decided.append('C16.f readers: `value or default` only with the zero of the value\'s type as default (a written 0 must not become -1), and a branch taken on the '
+                       'truthiness of proto field F uses F itself, not a sibling field whose presence F does not imply')
+    ctx.rule('C16.f', 'truthiness shortcuts in from_proto / deserialize functions: (1) the default of `x or c` is 0 / 0.0 / "" / False / None / an empty container; '
+             '(2) inside `if msg.F:` the fields read from msg are F itself - proto3 scalars have no presence, so a zero value of F says nothing about its siblings', floor=20, style='WR')
+    ZEROS = ('0', '0.0', "''", '""', 'False', 'None', '()', '[]', '{}')
+    rels = ['cirq-google/cirq_google/api/v2/sweeps.py', 'cirq-google/cirq_google/serialization/arg_func_langs.py',
+            'cirq-google/cirq_google/serialization/circuit_serializer.py', 'cirq-google/cirq_google/api/v2/results.py',
+            'cirq-google/cirq_google/api/v2/run_context.py', 'cirq-google/cirq_google/devices/grid_device.py']
+    for rel in rels:
+        if not repo.exists(rel):
+            continue
+        m = repo.module(rel)
+        for fn in [f for f in ast.walk(m.tree) if isinstance(f, ast.FunctionDef)]:
+            helper_reader = any(a.annotation is not None and '_pb2.' in ast.unparse(a.annotation) for a in fn.args.args) and fn.returns is not None and '_pb2' not in ast.unparse(fn.returns)
+            if not ('from_proto' in fn.name or 'deserialize' in fn.name or helper_reader):
+                continue
+            for n in ast.walk(fn):
+                if isinstance(n, ast.BoolOp) and isinstance(n.op, ast.Or) and isinstance(n.values[-1], (ast.Constant, ast.UnaryOp, ast.Tuple, ast.List, ast.Dict)):
+                    c = ast.unparse(n.values[-1])
+                    ok = c in ZEROS
+                    ctx.ob('C16.f', f'{m.name}.{fn.name}:or-default:{ast.unparse(n.values[0])[:60]}', ok,
+                           '' if ok else f'`{ast.unparse(n)[:80]}`: a written zero is read back as {c} (for a record index, 0 = first record becomes -1 = latest record)', m.rel, n.lineno)
+                if isinstance(n, ast.If) and isinstance(n.test, ast.Attribute):
+                    tested = ast.unparse(n.test)
+                    parent = ast.unparse(n.test.value)
+                    others = sorted({ast.unparse(x) for st in n.body for x in ast.walk(st)
+                                     if isinstance(x, ast.Attribute) and ast.unparse(x.value) == parent and ast.unparse(x) != tested and not isinstance(x.ctx, ast.Store)
+                                     and not any(isinstance(pp, ast.Call) and pp.func is x for st2 in n.body for pp in ast.walk(st2))})
+                    ok = not others
+                    ctx.ob('C16.f', f'{m.name}.{fn.name}:presence-by-value:{tested}', ok,
+                           '' if ok else f'the branch taken when `{tested}` is non-zero reads {others}: a value of 0 in {n.test.attr} (e.g. a sweep ending at 0.0) makes the reader '
+                           'ignore sibling fields that were written', m.rel, n.lineno)
